@@ -244,22 +244,25 @@ def toListFuel : Nat → PolyThickPixels → Option (List Pt)
 
 end PolyThickPixels
 
-/-- Pixel budget of a stroked polyline: the area of its bounding box, plus one. -/
-def polyPixelBudget (bb : Rect) : Nat := bb.size.w * bb.size.h * 2 + 2
+/-- Fuel for draining `pixels()` of a polyline of width > 1 in the model (one unit per pixel, one to
+see the final `None`): the total length of the scanlines a `for` loop over a fresh `ScanlineIterator`
+sees. Every pixel of `pixels()` is a point of one of those scanlines, so the fuel is never used up
+(`C01Thick.pixels_eq_run`, EG/Lemmas/C01ThickPoly.lean: `pixels` is the COMPLETE pixel run). -/
+def polyPixelFuel (pl : Polyline) (width : Nat) : Option Nat := do
+  let si ← PolyScanlines.new pl width
+  let lines ← si.toList
+  pure ((lines.map (fun s => (s.xe - s.xs).toNat)).sum + 1)
 
 /-- The points of `polyline.into_styled(PrimitiveStyle::with_stroke(c, width)).pixels()` in emission
-order. Width 0: `effective_stroke_color()` is `None`; width 1: `points()`. Each scanline of a
-row is disjoint from the others of that row (the iterator merges touching ones), but different
-segments groups may overlap, hence the factor in the budget; running out of it shows as a
-correspondence disagreement (missing pixels). -/
+order. Width 0: `effective_stroke_color()` is `None`; width 1: `points()`. -/
 def pixels (pl : Polyline) (width : Nat) : Option (List Pt) :=
   match width with
   | 0 => some []
   | 1 => some (Polyline.points pl)
   | _ => do
-    let bb ← untranslatedBoundingBox pl width
+    let fuel ← polyPixelFuel pl width
     let it ← PolyThickPixels.new pl width
-    it.toListFuel (polyPixelBudget bb * (pl.vertices.length + 1))
+    it.toListFuel fuel
 
 end Joins
 end EG
